@@ -152,6 +152,8 @@ func (h *Header) Parse(b []byte) error {
 			h.Options = h.Options[:optlen]
 		}
 		copy(h.Options, b[HeaderLen:hdrlen])
+	} else {
+		h.Options = h.Options[:0]
 	}
 	return nil
 }
